@@ -21,7 +21,7 @@ use serde_json::{json, Value};
 
 pub struct C13;
 
-fn no_probe_cfg() -> Cfg {
+pub fn no_probe_cfg() -> Cfg {
     Cfg {
         probe_qq_keyword: 0,
         probe_temp_capture: 0,
